@@ -2,7 +2,7 @@
    Model: Model/GF8.v (GF(2^8) mod 0x11D; klauspost/reedsolomon with WithPAR1Matrix: Encode, Reconstruct,
    Verify) and Model/Par1.v (Create, the decoder, Verify, Repair) over Model/FS.v. *)
 From Gopar Require Import Model.Base Model.Matrix Model.RS16 Model.GF8 Model.CRC Model.GoPath Model.FS Model.Par1
-     Proofs.LinAlg Proofs.GoPathFacts Proofs.Par2Facts Proofs.GF8Facts Proofs.Par1Facts Proofs.Par1Clean Proofs.Par1RoundTrip Proofs.Par1Volumes Proofs.Par1RoundTrip2 Proofs.Par1RoundTrip3.
+     Proofs.LinAlg Proofs.GoPathFacts Proofs.Par2Facts Proofs.GF8Facts Proofs.Par1Facts Proofs.Par1Clean Proofs.Par1RoundTrip Proofs.Par1Volumes Proofs.Par1RoundTrip2 Proofs.Par1RoundTrip3 Proofs.Par1RoundTrip4.
 Open Scope N_scope.
 
 (* Reconstruct, for EVERY file count, volume count, content and EVERY subset of surviving data files and
@@ -281,3 +281,112 @@ Theorem C04_create_damage_files_and_volumes : forall md5, (forall x, length (md5
   \/ (r = Err ESingular /\ io_fs st3 = fs2 /\ rp = []).
 Proof. exact par1_create_damage_files_and_volumes. Qed.
 Print Assumptions C04_create_damage_files_and_volumes.
+
+(* DAMAGED data files - ARBITRARY content at the data paths - from Create to Repair (Proofs/Par1RoundTrip4.v): after Create, any
+   later state with the index and the kept volumes as written, at each data path the original, nothing, or ANY other bytes, the
+   other volume paths removed, unparsable or foreign.  With bad = the data paths not holding their original: bad <= kept volumes =>
+   Repair restores every file byte for byte, lists exactly bad, changes nothing else (or the singular error with nothing
+   written); more bad than kept volumes => the not-enough error, nothing written; Verify counts unusable = |bad|, usable = the
+   rest, usable volumes = kept.  Premise: the local hash premise (content with a file's MD5 and 16k-MD5 is that file) - needed:
+   Par1RoundTrip4.par1_damage_any_without_hash_premise_refuted. *)
+Theorem C04_create_damage_repair_restores : forall md5, (forall x, length (md5 x) = 16%nat) ->
+  forall parPath files nvol fs st' lostv fs2 dbl r rp st3,
+  par1_create md5 parPath files nvol (io_init fs []) = (Ok tt, st') ->
+  let nv := if (nvol <=? 0)%Z then 3%nat else Z.to_nat nvol in
+  let np := Nat.min nv 99 in
+  let vp := fun k : nat => volume_path parPath (N.of_nat k) in
+  Forall (fun f => input_name_ok (base f)) files ->
+  Forall (fun f => join2 (dir parPath) (base f) = f) files ->
+  (forall f d, In f files -> fs_lookup fs f = Some d -> N.of_nat (length d) < 2^64 /\ wf_bytes d) ->
+  (* the volumes not kept *)
+  NoDup lostv -> (forall k, In k lostv -> (1 <= k <= np)%nat) ->
+  (* the state before Repair: index and kept volumes as Create wrote them *)
+  fs_lookup fs2 parPath = fs_lookup (io_fs st') parPath ->
+  (forall k, (1 <= k <= np)%nat -> ~ In k lostv -> fs_lookup fs2 (vp k) = fs_lookup (io_fs st') (vp k)) ->
+  (* every other volume path the loader probes: nothing there, or a file that is not a volume of this set *)
+  (forall k, (1 <= k <= Nat.min (256 - length files) 99)%nat -> In k lostv \/ (np < k)%nat ->
+     read_res fs2 (vp k) = Err ENotExist \/
+     exists b, read_res fs2 (vp k) = Ok b /\
+       match read_volume md5 b with
+       | Ok v => v_sethash_stored v <> input_set_hash md5 fs files \/ v_number v <> N.of_nat k
+       | Err _ => True
+       | Panic _ => False
+       end) ->
+  (* the data paths hold anything; an empty one is no directory *)
+  (forall f, In f files -> fs_lookup fs2 f = None -> is_dir fs2 f = false) ->
+  (* local collision-freeness for the bytes actually present *)
+  (forall f d b, In f files -> fs_lookup fs f = Some d -> fs_lookup fs2 f = Some b ->
+     md5 b = md5 d -> hash16k md5 b = hash16k md5 d -> b = d) ->
+  let bad := filter (fun f => negb (orig_at fs fs2 f)) files in
+  (length bad <= np - length lostv)%nat ->
+  par1_repair md5 parPath dbl (io_init fs2 []) = ((r, rp), st3) ->
+  (r = Ok tt /\
+   (forall f d, In f files -> fs_lookup fs f = Some d -> fs_lookup (io_fs st3) f = Some d) /\
+   rp = bad /\
+   (forall p, ~ In p rp -> fs_lookup (io_fs st3) p = fs_lookup fs2 p))
+  \/ (r = Err ESingular /\ io_fs st3 = fs2 /\ rp = []).
+Proof. exact Par1RoundTrip4.C04_create_damage_repair_restores. Qed.
+Print Assumptions C04_create_damage_repair_restores.
+
+Theorem C04_create_damage_verify_counts : forall md5, (forall x, length (md5 x) = 16%nat) ->
+  forall parPath files nvol fs st' lostv fs2 all,
+  par1_create md5 parPath files nvol (io_init fs []) = (Ok tt, st') ->
+  let nv := if (nvol <=? 0)%Z then 3%nat else Z.to_nat nvol in
+  let np := Nat.min nv 99 in
+  let vp := fun k : nat => volume_path parPath (N.of_nat k) in
+  Forall (fun f => input_name_ok (base f)) files ->
+  Forall (fun f => join2 (dir parPath) (base f) = f) files ->
+  (forall f d, In f files -> fs_lookup fs f = Some d -> N.of_nat (length d) < 2^64) ->
+  NoDup lostv -> (forall k, In k lostv -> (1 <= k <= np)%nat) ->
+  fs_lookup fs2 parPath = fs_lookup (io_fs st') parPath ->
+  (forall k, (1 <= k <= np)%nat -> ~ In k lostv -> fs_lookup fs2 (vp k) = fs_lookup (io_fs st') (vp k)) ->
+  (forall k, (1 <= k <= Nat.min (256 - length files) 99)%nat -> In k lostv \/ (np < k)%nat ->
+     read_res fs2 (vp k) = Err ENotExist \/
+     exists b, read_res fs2 (vp k) = Ok b /\
+       match read_volume md5 b with
+       | Ok v => v_sethash_stored v <> input_set_hash md5 fs files \/ v_number v <> N.of_nat k
+       | Err _ => True
+       | Panic _ => False
+       end) ->
+  (forall f, In f files -> fs_lookup fs2 f = None -> is_dir fs2 f = false) ->
+  (forall f d b, In f files -> fs_lookup fs f = Some d -> fs_lookup fs2 f = Some b ->
+     md5 b = md5 d -> hash16k md5 b = hash16k md5 d -> b = d) ->
+  let bad := filter (fun f => negb (orig_at fs fs2 f)) files in
+  exists c ok st2, par1_verify md5 parPath all (io_init fs2 []) = (Ok (c, ok), st2) /\
+    fc_unusable c = length bad /\ fc_usable c = (length files - length bad)%nat /\
+    fc_pusable c = (np - length lostv)%nat /\
+    io_fs st2 = fs2 /\
+    ok = all && Nat.eqb (length bad) 0 && Nat.eqb (fc_punusable c) 0.
+Proof. exact Par1RoundTrip4.C04_create_damage_verify_counts. Qed.
+Print Assumptions C04_create_damage_verify_counts.
+
+Theorem C04_create_damage_too_many : forall md5, (forall x, length (md5 x) = 16%nat) ->
+  forall parPath files nvol fs st' lostv fs2 dbl r rp st3,
+  par1_create md5 parPath files nvol (io_init fs []) = (Ok tt, st') ->
+  let nv := if (nvol <=? 0)%Z then 3%nat else Z.to_nat nvol in
+  let np := Nat.min nv 99 in
+  let vp := fun k : nat => volume_path parPath (N.of_nat k) in
+  Forall (fun f => input_name_ok (base f)) files ->
+  Forall (fun f => join2 (dir parPath) (base f) = f) files ->
+  (forall f d, In f files -> fs_lookup fs f = Some d -> N.of_nat (length d) < 2^64 /\ wf_bytes d) ->
+  NoDup lostv -> (forall k, In k lostv -> (1 <= k <= np)%nat) ->
+  fs_lookup fs2 parPath = fs_lookup (io_fs st') parPath ->
+  (forall k, (1 <= k <= np)%nat -> ~ In k lostv -> fs_lookup fs2 (vp k) = fs_lookup (io_fs st') (vp k)) ->
+  (forall k, (1 <= k <= Nat.min (256 - length files) 99)%nat -> In k lostv \/ (np < k)%nat ->
+     read_res fs2 (vp k) = Err ENotExist \/
+     exists b, read_res fs2 (vp k) = Ok b /\
+       match read_volume md5 b with
+       | Ok v => v_sethash_stored v <> input_set_hash md5 fs files \/ v_number v <> N.of_nat k
+       | Err _ => True
+       | Panic _ => False
+       end) ->
+  (forall f, In f files -> fs_lookup fs2 f = None -> is_dir fs2 f = false) ->
+  (forall f d b, In f files -> fs_lookup fs f = Some d -> fs_lookup fs2 f = Some b ->
+     md5 b = md5 d -> hash16k md5 b = hash16k md5 d -> b = d) ->
+  let bad := filter (fun f => negb (orig_at fs fs2 f)) files in
+  (np - length lostv < length bad)%nat ->
+  par1_repair md5 parPath dbl (io_init fs2 []) = ((r, rp), st3) ->
+  r = Err ENotEnoughParity /\ io_fs st3 = fs2 /\ rp = [].
+Proof. exact Par1RoundTrip4.C04_create_damage_too_many. Qed.
+Print Assumptions C04_create_damage_too_many.
+
